@@ -183,6 +183,9 @@ func TestVerif_C47Engine(t *testing.T) {
 				discarded := lost > 0
 				r.Distinct(fmt.Sprintf("%s|%d|%d|%v", c.ans.name, nShards, c.holders, discarded))
 				cd := map[string]any{"round": round, "shards": nShards, "answer": c.ans.name, "holding_shards": c.holders, "objects": len(c.addrs), "lost": lost}
+				if round%7 == 0 {
+					r.Sample(cd)
+				}
 				src.mu.Lock()
 				asked := src.asked[c.id]
 				src.mu.Unlock()
